@@ -18,8 +18,15 @@
 (* Decode: length -1 is null; otherwise the payload, decrypted when the       *)
 (*         column is in the policy, deserialized with the column's type.      *)
 (* E / D are an OPAQUE bijection per column: a ciphertext is a token that is  *)
-(* no plain serialization of anything, and D(c, E(c, b)) = b is all that is   *)
-(* known about it.  (The real AES-256-CBC policy is used on the code side.)   *)
+(* no plain serialization of anything, and D(c, _, E(c, _, b)) = b is all     *)
+(* that is known about it.  (The real AES-256-CBC policy is used on the code  *)
+(* side.)  The cipher is keyed per column; the initialization vector is the   *)
+(* WRITING policy's, and it travels in front of the ciphertext ("Store IV     *)
+(* along with encrypted text", CHANGELOG 3.28.0 / PYTHON-1350; encrypt()      *)
+(* returns self.iv + ..., decrypt() takes the first block as the IV).  Hence  *)
+(* the policy instance that READS may be another one than the one that WROTE  *)
+(* (application restart, a second client): same keys, but its own IV - a      *)
+(* random one by default.  The reader's IV must not matter.                   *)
 (*                                                                            *)
 (* A state is one CASE (a result set: column layout, rows of values, how the  *)
 (* values are bound, where the decoder takes the result metadata from) and    *)
@@ -34,8 +41,11 @@ CONSTANTS MaxCols,      \* 1..MaxCols columns
           FreeTypes,    \* TRUE: every column's type is chosen freely; FALSE: int, text, int by position
           PVs,          \* protocol versions
           BindModes,    \* subset of {"seq", "map"}: positional / by-name binding
-          MetaModes     \* subset of {"inline", "prepared"}: result metadata in the ROWS message, or taken from the
+          MetaModes,    \* subset of {"inline", "prepared"}: result metadata in the ROWS message, or taken from the
                         \* prepared statement (NO_METADATA flag, "skip metadata")
+          PolicyModes   \* subset of {"same", "default_ivs", "explicit_ivs"}: the policy that decodes is the very instance
+                        \* that bound / a separate instance with the same keys, both with their default (random) IV /
+                        \* a separate instance with the same keys, both with explicit, different IVs
 
 Types == {"int", "text"}
 
@@ -54,15 +64,19 @@ Null == [k |-> "null", v |-> V(0, <<>>)]
 Val(v) == [k |-> "val", v |-> v]
 Cells(ty) == {Null} \cup {Val(v) : v \in Vals(ty)}
 
-\* opaque cipher
-E(c, b) == [col |-> c, of |-> b]
-D(c, x) == x.of                       \* only ever applied to a token made by E(c, _): see DecryptOwnColumn
+\* the IVs of the writing and the reading policy instance (opaque names)
+WriterIv(pm) == "iv1"
+ReaderIv(pm) == IF pm = "same" THEN "iv1" ELSE "iv2"
+
+\* opaque cipher: the token carries the IV it was made with; decryption uses THAT one, whatever the reader's own is
+E(c, iv, b) == [col |-> c, iv |-> iv, of |-> b]
+D(c, ownIv, x) == x.of                \* only ever applied to a token made by E(c, _, _)
 
 \* bound / wire values.  t: "null" | "plain" (payload b) | "cipher" (payload is the token E(c, b))
 BNull == [t |-> "null", b |-> <<>>]
 BindCell(c, col, cell) ==
     IF cell.k = "null" THEN BNull
-    ELSE IF col.enc THEN [t |-> "cipher", b |-> Ser(col.ty, cell.v)]         \* stands for E(c, Ser(..))
+    ELSE IF col.enc THEN [t |-> "cipher", b |-> Ser(col.ty, cell.v)]         \* stands for E(c, WriterIv, Ser(..))
     ELSE [t |-> "plain", b |-> Ser(col.ty, cell.v)]
 
 \* [bytes]: n = -1 for null.  The ciphertext's length is not known to the definition (n = 0 - 2 marks "some n >= 0")
@@ -70,9 +84,9 @@ WireCell(c, bv) ==
     IF bv.t = "null" THEN [n |-> 0 - 1, payload |-> BNull]
     ELSE [n |-> IF bv.t = "plain" THEN Len(bv.b) ELSE 0 - 2, payload |-> bv]
 
-DecodeCell(c, col, w) ==
+DecodeCell(c, col, w, pm) ==
     IF w.n = 0 - 1 THEN Null
-    ELSE LET raw == IF col.enc THEN D(c, E(c, w.payload.b)) ELSE w.payload.b
+    ELSE LET raw == IF col.enc THEN D(c, ReaderIv(pm), E(c, WriterIv(pm), w.payload.b)) ELSE w.payload.b
          IN Val(Deser(col.ty, raw))
 
 -----------------------------------------------------------------------------
@@ -89,13 +103,14 @@ RowsOf(cols, n, r) == IF r = 0 THEN {<<>>} ELSE {<<row>> \o rest : row \in RowSe
 
 Init ==
     \E n \in 1..MaxCols : \E cols \in Layouts(n) : \E r \in 0..MaxRows : \E pv \in PVs :
-    \E bm \in BindModes : \E mm \in MetaModes :
+    \E bm \in BindModes : \E mm \in MetaModes : \E pm \in PolicyModes :
        /\ n * r <= MaxCells
+       /\ (pm # "same" => \E c \in 1..n : cols[c].enc)       \* a second policy instance only matters with an encrypted column
        /\ \E rows \in RowsOf(cols, n, r) :
-          /\ case = [cols |-> cols, rows |-> rows, pv |-> pv, bind |-> bm, meta |-> mm]
+          /\ case = [cols |-> cols, rows |-> rows, pv |-> pv, bind |-> bm, meta |-> mm, pol |-> pm]
           /\ LET bound == [i \in 1..r |-> [c \in 1..n |-> BindCell(c, cols[c], rows[i][c])]] IN
              out = [bound |-> bound,
-                    decoded |-> [i \in 1..r |-> [c \in 1..n |-> DecodeCell(c, cols[c], WireCell(c, bound[i][c]))]]]
+                    decoded |-> [i \in 1..r |-> [c \in 1..n |-> DecodeCell(c, cols[c], WireCell(c, bound[i][c]), pm)]]]
 
 Next == UNCHANGED vars
 Spec == Init /\ [][Next]_vars
@@ -123,6 +138,7 @@ C39Invariants == Transparent /\ SentEncrypted /\ NullStaysNull
 \* vacuity witnesses (each must be VIOLATED)
 Witness_NullInEncryptedColumn == ~(\E i \in 1..R : \E c \in 1..N : case.cols[c].enc /\ case.rows[i][c].k = "null")
 Witness_MixedLayoutTwoRows == ~(R = 2 /\ \E c, d \in 1..N : case.cols[c].enc /\ ~case.cols[d].enc)
+Witness_SeparateReaderPolicy == ~(case.pol # "same" /\ R >= 1 /\ ReaderIv(case.pol) # WriterIv(case.pol))
 Witness_EmptyStringEncrypted == ~(\E i \in 1..R : \E c \in 1..N : case.cols[c].enc /\ case.rows[i][c].k = "val"
                                                                   /\ case.cols[c].ty = "text" /\ case.rows[i][c].v.s = <<>>)
 =============================================================================
